@@ -183,6 +183,9 @@ Definition TableUsable (s : state) : Prop :=
 Definition HeadsFull (s : state) : Prop :=
   forall r c, In (r, (c, true)) (refs s) -> In (c_table c) (tables s).
 
+(** the key listing of the commit store has no duplicate key *)
+Definition WF (s : state) : Prop := NoDup (commits s).
+
 Definition Inv3 (s : state) : Prop := RefsResolve s /\ TableUsable s /\ HeadsFull s.
 Definition Inv (s : state) : Prop := Closed s /\ Inv3 s.
 
